@@ -303,6 +303,15 @@ void intervalBody(vf::Ctx & c)
       static_cast<double>(lo2[d]), static_cast<double>(hi2[d]), static_cast<double>(u.lower()[d]), static_cast<double>(u.upper()[d])));
   }
   c.check(u.inside(v) == inHull, "inside() of the union disagrees with the hull");
+  // the default interval is the whole space: it contains every query, and stays the whole space whatever it includes
+  Interval<S, D> whole;
+  c.check(whole.inside(v), "the default (whole space) interval does not contain the query");
+  Interval<S, D> w2 = whole;
+  w2.include(a);
+  c.check(w2.lower() == whole.lower() && w2.upper() == whole.upper(), "whole space including an interval is no longer the whole space");
+  Interval<S, D> w3 = a;
+  w3.include(whole);
+  c.check(w3.lower() == whole.lower() && w3.upper() == whole.upper(), "an interval including the whole space is not the whole space");
   Interval<S, D> u2 = b;
   u2.include(a);
   c.check(u2.lower() == u.lower() && u2.upper() == u.upper(), "include() is not symmetric");
@@ -333,6 +342,16 @@ void interval1Body(vf::Ctx & c)
   u.include(b);
   c.check(u.lower() == std::min(lo1, lo2) && u.upper() == std::max(hi1, hi2), "Interval1D::include is not the hull");
   c.check(u.inside(v) == (v >= std::min(lo1, lo2) && v <= std::max(hi1, hi2)), "Interval1D hull inside()");
+  Interval<S, 1> u2 = b;
+  u2.include(a);
+  c.check(u2.lower() == u.lower() && u2.upper() == u.upper(), "Interval1D::include is not symmetric");
+  c.check(u.width() == u.upper() - u.lower() && a.width() == hi1 - lo1, "Interval1D::width() differs from upper - lower");
+  c.check(a.center() == (lo1 + hi1) / 2, "Interval1D::center() is not the middle");
+  Interval<S, 1> whole;
+  c.check(whole.inside(v), "the default (whole line) 1-D interval does not contain the query");
+  Interval<S, 1> w2 = a;
+  w2.include(whole);
+  c.check(w2.lower() == whole.lower() && w2.upper() == whole.upper(), "a 1-D interval including the whole line is not the whole line");
 }
 
 // ---------------------------------------------------------------------------------------------------------
@@ -387,7 +406,7 @@ Cloud genCloud(vf::Ctx & c)
 }
 
 template<class PointType>
-void preconditionerOn(vf::Ctx & c, const Cloud & cl, const char * typeName, bool reusedObject)
+void preconditionerOn(vf::Ctx & c, const Cloud & cl, const char * typeName, bool reusedObject, bool fromConstructor)
 {
   using S = typename PointType::Scalar;
   constexpr int DIM = PointTraits<PointType>::DIM;
@@ -412,7 +431,22 @@ void preconditionerOn(vf::Ctx & c, const Cloud & cl, const char * typeName, bool
     }
     pre.compute(other);
   }
-  pre.compute(set);
+  if (fromConstructor) {
+    // the constructor that takes the set: same results as a default-constructed object that computes
+    pre = PointSetPreconditioner<PointType>(set);
+  } else if (reusedObject && set.size() % 2 == 0) {
+    // the same container refilled in place: first it holds other content of the same size (shifted and mirrored),
+    // the preconditioner processes it, then the real content is written over it and processed
+    PointSet<PointType> real = set;
+    for (auto & q : set) {
+      for (int d = 0; d < DIM; ++d) {q[d] = static_cast<S>(-3 * q[d] + 17);}
+    }
+    pre.compute(set);
+    for (size_t k = 0; k < set.size(); ++k) {set[k] = real[k];}
+    pre.compute(set);
+  } else {
+    pre.compute(set);
+  }
   S mn[4], mx[4];
   LD sum[4];
   for (int d = 0; d < SIZE; ++d) {mn[d] = set[0][d]; mx[d] = set[0][d]; sum[d] = 0;}
@@ -449,16 +483,18 @@ void pointSetBody(vf::Ctx & c)
   bool reused = c.s.flag("preconditioner_object_reused");
   if (reused) {c.label("preconditioner-object-reused");}
   maybeInsertOrigin(c, cl);
+  const bool fromCtor = c.s.flag("preconditioner_constructed_from_the_set", 1, 3);
+  if (fromCtor) {c.label("preconditioner-constructed-from-the-set");}
   c.commit();
   switch (type) {
-    case 0: c.label("Vector2f"); preconditionerOn<Eigen::Vector2f>(c, cl, "Vector2f", reused); break;
-    case 1: c.label("Vector2d"); preconditionerOn<Eigen::Vector2d>(c, cl, "Vector2d", reused); break;
-    case 2: c.label("Vector3f"); preconditionerOn<Eigen::Vector3f>(c, cl, "Vector3f", reused); break;
-    case 3: c.label("Vector3d"); preconditionerOn<Eigen::Vector3d>(c, cl, "Vector3d", reused); break;
-    case 4: c.label("Homogeneous2f"); preconditionerOn<HomogeneousCoordinates2f>(c, cl, "Homogeneous2f", reused); break;
-    case 5: c.label("Homogeneous2d"); preconditionerOn<HomogeneousCoordinates2d>(c, cl, "Homogeneous2d", reused); break;
-    case 6: c.label("Homogeneous3f"); preconditionerOn<HomogeneousCoordinates3f>(c, cl, "Homogeneous3f", reused); break;
-    default: c.label("Homogeneous3d"); preconditionerOn<HomogeneousCoordinates3d>(c, cl, "Homogeneous3d", reused); break;
+    case 0: c.label("Vector2f"); preconditionerOn<Eigen::Vector2f>(c, cl, "Vector2f", reused, fromCtor); break;
+    case 1: c.label("Vector2d"); preconditionerOn<Eigen::Vector2d>(c, cl, "Vector2d", reused, fromCtor); break;
+    case 2: c.label("Vector3f"); preconditionerOn<Eigen::Vector3f>(c, cl, "Vector3f", reused, fromCtor); break;
+    case 3: c.label("Vector3d"); preconditionerOn<Eigen::Vector3d>(c, cl, "Vector3d", reused, fromCtor); break;
+    case 4: c.label("Homogeneous2f"); preconditionerOn<HomogeneousCoordinates2f>(c, cl, "Homogeneous2f", reused, fromCtor); break;
+    case 5: c.label("Homogeneous2d"); preconditionerOn<HomogeneousCoordinates2d>(c, cl, "Homogeneous2d", reused, fromCtor); break;
+    case 6: c.label("Homogeneous3f"); preconditionerOn<HomogeneousCoordinates3f>(c, cl, "Homogeneous3f", reused, fromCtor); break;
+    default: c.label("Homogeneous3d"); preconditionerOn<HomogeneousCoordinates3d>(c, cl, "Homogeneous3d", reused, fromCtor); break;
   }
 }
 
@@ -548,6 +584,8 @@ const std::vector<vf::Sub> kSubs = {
   {"interval1f", interval1Body<float>, "1-D intervals with dyadic ends, query at an end, one ulp off, or free; every case non-trivial"},
   {"interval1d", interval1Body<double>, "1-D intervals with dyadic ends, query at an end, one ulp off, or free; every case non-trivial"},
   {"interval2f", intervalBody<float, 2>, "pairs of intervals (free / touching / nested / disjoint per axis) with dyadic ends; query at an end of either interval, one ulp off, or free; every case non-trivial"},
+  {"interval2d", intervalBody<double, 2>, "pairs of intervals (free / touching / nested / disjoint per axis) with dyadic ends; query at an end of either interval, one ulp off, or free; every case non-trivial"},
+  {"interval3f", intervalBody<float, 3>, "pairs of intervals (free / touching / nested / disjoint per axis) with dyadic ends; query at an end of either interval, one ulp off, or free; every case non-trivial"},
   {"interval3d", intervalBody<double, 3>, "pairs of intervals (free / touching / nested / disjoint per axis) with dyadic ends; query at an end of either interval, one ulp off, or free; every case non-trivial"},
   {"pointset", pointSetBody, kSetRule},
   {"containers", containerBody, kSetRule},
